@@ -473,3 +473,11 @@ def run(ctx):
                        "translate/builtins.py regenerates Gen.builtins from the Rust sources on every run; names and arity "
                        "windows are compared with the real registry",
                        "error.rs format strings: hash-checked against the hand-written `render` model, not regenerated"])
+
+
+# ROUND 8 / wave 11: the Ext laws - incl. the two T06.6 laws ExtNoPanic, ExtEnvInv - are theorems for a table of real
+# builtins (lib/props/procinv_util.py, Lemmas/ListExtC06.lean)
+import procinv_util as _pv8
+MODULE = _pv8.listext_module("C06")
+THEOREMS = THEOREMS + [t for t in _pv8.LISTEXT_LAWS + _pv8.LISTEXT_LAWS_C06 + _pv8.LISTEXT["C06"] if t not in THEOREMS]
+META["note"] = META["note"] + _pv8.LISTEXT_NOTE + _pv8.LISTEXT_NOTE_C06
